@@ -28,6 +28,16 @@ CHECKS = {
     text="Partial: proved for all tool behaviours - one merge call whose stdin is exactly the discovered profile occurrences (no duplicates introduced, order-free); each selected binary exported once per merged profile; failing or unparsable exports dropped without affecting the others; the report is the C01 aggregation of the exported data in any order; the GCC worker's report is the aggregation of what gcov wrote, for every split over workers and lock order and both latch regimes. Equality with the toolchain's own account (gcov's per-line counts and function flags) is validated differentially against gcov 12, for thread counts 1/2/4; the tools themselves are not modelled.",
     note="Trusted: Coq kernel, vm_compute, gcc/gcov 12, the driver's gcov/lcov readers, the stub tools. The ignore walker, infer::is_app and the file system enter as data. The SingleFile latch branch is proved but unreachable with gcov 12. Two known findings (duplicate JSON line entries; walker standard filters). No axioms.",
     ref="6/C20"),
+ "C02": dict(
+    technique="Coq proof (labelled transition system of producer / N workers / main over a bounded FIFO; one inductive invariant over the 18 labels: conservation, stop-marker accounting, map = aggregation of merged batches) + replay of real hook event logs through the LTS under vm_compute + end-to-end report oracle",
+    text="Proof for the transition-system model, for every number of workers N >= 1, every capacity, every item list and every interleaving: no item is lost or duplicated at any point; the map is the aggregation of the merged batches; an execution that ends with status 0 has merged exactly the accepted items once each, so its report observably equals the C01 aggregation of the per-artifact results, independently of N, interleaving and input order (difference confined to disputed start lines). Partial for the runtime: the model's atomic steps (crossbeam channel = linearizable FIFO, Mutex = mutual exclusion, spawn/join) are trusted and sampled by trace validation: every run's per-thread hook log is scheduled into LTS labels and replayed by Coq (must end in MExit 0 with merged set = item set and map = report), on inputs spread over directories, zips and plain arguments, threads 1-16, shuffled arguments, perturbed schedules.",
+    note="Trusted: Coq kernel, vm_compute (trace replay); hooks H1/H2 (cfg mozilla_grcov_verif); the Python scheduler (its output is re-checked by Coq); crossbeam/Mutex/thread semantics; only info artifacts are traced (xml/gcno use the same loop; gcno via external gcov is covered under C20). No axioms.",
+    ref="6/C02"),
+ "C07": dict(
+    technique="Coq proof (same LTS with faults: strictly decreasing measure for termination, enabledness analysis for no-stuck-state, exit-status invariant) + fault-injected real runs under a wall-clock limit replayed through the LTS",
+    text="Proof for the model, for all inputs, fault sets, N, capacities and interleavings: every step decreases a natural-number measure (no infinite execution); with main not holding a receiver (the repaired code) every reachable non-exited state can step (no hang); a dead producer or worker never goes with exit status 0; without deaths the report is the aggregation of the accepted inputs only (rejected inputs contribute nothing). The stuck state of the pinned code (main kept a receiver) is exhibited as a theorem, was reproduced on the real binary as a hang and repaired by a fix: commit. Partial for the runtime: OS scheduling, crossbeam's disconnect wake-up, panics in main/HTML threads or external tools are not modelled; fault plans (reject, panic outside/inside the lock, one/many/all workers, really malformed inputs, item counts around the capacity boundary) run under a 20 s limit and their hook logs are replayed by Coq (same exit status, same deaths).",
+    note="Trusted: Coq kernel, vm_compute; hooks H1-H3; Python scheduler (re-checked by Coq); crossbeam/Mutex/thread/process semantics; 20 s stands in for 'forever'. No axioms.",
+    ref="6/C07"),
  "C03": dict(
     technique="Coq proof (generic line-array lemma, fold over branch quadruples, gmap/list_to_map reasoning, Permutation of the covdir tree's files) + vm_compute correspondence of the Gallina encoders with the real output_* functions + independent Python readers of all 10 output types",
     text="Partial proof at the abstract-document level. coveralls(+) lines (all counts to 2^64-1), branches and functions; covdir arrays and tree file set; Cobertura class lines and conditions; HTML file rows; Markdown counts; files. Each is a theorem decode(encode) = data for all records, with the guards the known findings force made explicit (count < 2^63 for covdir/HTML, branch lines having a count for Cobertura) and _refuted witnesses. lcov bytes (proved separately under C05), ActiveData-ETL, Cobertura methods, Markdown ranges, HTML indexes and all JSON/XML/HTML serialisation are validated on every run by decoding the real reports of generated result sets with independent readers and comparing with the input and with the model.",
